@@ -5,6 +5,7 @@ CONSTANTS
   Origins = {2}
   Tables = {0, 1, 2, 3}
   Triples = FALSE
+  Full = FALSE
 INVARIANT AllRotations
 ACTION_CONSTRAINT Emit
 CHECK_DEADLOCK FALSE
